@@ -825,12 +825,50 @@ def genNpm (seed count : Nat) : IO Unit := do
       k := k + 1
     g := g3
 
+/-- the small simples: every operator/shape over partials built from 0 and 1 with three tags -/
+def smallSimples : List Semver.Spec.Npm.Simple :=
+  let tags : List (List Ident) := [[], [.alpha "alpha".toList], [.num 0]]
+  let nps : List Semver.Spec.Npm.NP :=
+    [.any, .maj 0, .maj 1, .majMin 0 0, .majMin 0 1, .majMin 1 0, .full 0 0 1 [] [], .full 0 1 0 [] []] ++
+    tags.map (fun t => .full 0 0 0 t []) ++ tags.map (fun t => .full 1 0 0 t [])
+  nps.flatMap (fun p =>
+    [.bare p, .tilde p, .caret p] ++ [Semver.Spec.Npm.Op.lt, .le, .gt, .ge, .eq].map (fun o => .prim o p))
+
+/-- `driver gen-npm-pairs <seed> <count>`: alternatives of two small simples (semantic coincidences at
+0.0.0 and 1.0.0: `^0.0 >=0.0.0-alpha`, `* <0.0.0-alpha`, `<1 >=1.0.0-0`, …), each evaluated on its
+whole grid; `count = 0` enumerates every ordered pair -/
+def genNpmPairs (seed count : Nat) : IO Unit := do
+  let out ← IO.getStdout
+  let ss := smallSimples
+  let n := ss.length
+  let mut g : Semver.Spec.Npm.Gen := ⟨seed * 2654435761 + 777⟩
+  let total := if count == 0 then n * n else count
+  for i in [0:total] do
+    let (i1, i2, g') := if count == 0 then (i / n, i % n, g) else
+      let (a, g1) := g.below n
+      let (b, g2) := g1.below n
+      (a, b, g2)
+    match ss[i1]?, ss[i2]? with
+    | some s1, some s2 =>
+      let r : Semver.Spec.Npm.Ast := [.simples [s1, s2]]
+      let (t, g2) := Semver.Spec.Npm.genAst g' r
+      g := g2
+      let enc := AstCodec.encAst r
+      let txt := Codec.encodeText t
+      for v in (Semver.Spec.Npm.Ast.grid r).eraseDups do
+        out.putStrLn s!"npm\t{enc}\t{txt}\t{Codec.encodeVersion v}\t?"
+    | _, _ => g := g'
+
 def main (args : List String) : IO Unit := do
   match args with
   | ["gen-npm", seed, count] =>
     match seed.toNat?, count.toNat? with
     | some s, some c => genNpm s c
     | _, _ => IO.eprintln "usage: driver gen-npm <seed> <count>"
+  | ["gen-npm-pairs", seed, count] =>
+    match seed.toNat?, count.toNat? with
+    | some s, some c => genNpmPairs s c
+    | _, _ => IO.eprintln "usage: driver gen-npm-pairs <seed> <count>"
   | _ =>
     let stdin ← IO.getStdin
     let stdout ← IO.getStdout
